@@ -29,6 +29,7 @@ Inductive rir :=
 | TableMapGlobals (c : rir) (g : ir)
 | TableFilter (c : rir) (p : ir)
 | TableOrderBy (c : rir) (sf : list (N * bool))              (* sort fields: (name, ascending) *)
+| TableUnion (a b : rir)                                   (* the engine's node is n-ary; two children here *)
 | TableLeftJoinRightDistinct (l r : rir) (root : N)
 | TableIntervalJoin (l r : rir) (root : N) (product : bool)
 | MatrixRowsTable (c : rir) | MatrixColsTable (c : rir) | MatrixEntriesTable (c : rir)
@@ -53,6 +54,9 @@ Fixpoint tys_eqb (a b : list ty) : bool :=
 (* TBaseStruct.isPrefixOf: no more fields, and the zipped field types agree *)
 Fixpoint tys_prefix (a b : list ty) : bool :=
   match a, b with [] , _ => true | x :: a', y :: b' => ty_eqb x y && tys_prefix a' b' | _ :: _, [] => false end.
+Definition fields_eqb (a b : fields) : bool := ty_eqb (TStruct a) (TStruct b).
+Fixpoint nlist_eqb (a b : list N) : bool :=
+  match a, b with [], [] => true | x :: a', y :: b' => N.eqb x y && nlist_eqb a' b' | _, _ => false end.
 (* TStruct.appendKey asserts the field is new *)
 Definition append_key (row : fields) (k : N) (t : ty) : option fields :=
   if mem k (names row) then None else Some (row ++ [(k, t)]).
@@ -113,6 +117,13 @@ Fixpoint strict_type (x : rir) : option rty :=
       match strict_type c with
       | Some (RT (TT gl row _)) => if subset (map fst sf) (names row) then Some (RT (TT gl row [])) else None
       | _ => None
+      end
+  | TableUnion a b =>                       (* TableIR.scala:2471 typ = childrenSeq(0).typ; TypeCheck.scala:686-688: every child has
+                                               the first child's rowType and key (globals are not compared) *)
+      match strict_type a, strict_type b with
+      | Some (RT (TT g1 r1 k1)), Some (RT (TT _ r2 k2)) =>
+          if fields_eqb r1 r2 && nlist_eqb k1 k2 then Some (RT (TT g1 r1 k1)) else None
+      | _, _ => None
       end
   | TableLeftJoinRightDistinct l r root =>  (* TypeCheck: right.keyType isPrefixOf left.keyType; row: structInsert(root -> right.valueType) *)
       match strict_type l, strict_type r with
@@ -224,6 +235,7 @@ Inductive prog :=
 | PAnnotateGlobals (p : prog) (fs : list (N * fe))
 | PFilter (p : prog) (e : fe)
 | POrderBy (p : prog) (sf : list (N * bool))                (* t.order_by('a', hl.desc('b'), ..): row fields by name *)
+| PUnion (p q : prog) (unify : bool)                       (* p.union(q, unify=..) *)
 | PAnnotateIdx (p r : prog) (uid : N) (kfs : list (N * fe)) (am : bool) (fs : list (N * fe))
     (* t.annotate(f = e, ..) whose expressions use ONE lookup  r.index(k1, .., all_matches=am)  whose key expressions
        (paired with the names the front end generates for them) are not the key fields of t themselves; inside [fs] the
@@ -257,6 +269,28 @@ Definition index_schema (rrow : fields) (rkey : list N) (ktys : list ty) (am : b
       else let v := TStruct (value_fields rrow rkey) in Some (is_interval, if am then TArr v else v)
   | None => None
   end.
+
+(* Table.union(unify=True): per value field (in the order of the first table; the model covers tables with the SAME value
+   field names) the unified type -- the common type, or the larger numeric type -- and, per table, the select that
+   re-orders and converts: t.select(f = unified expression, ..) *)
+Definition unify_ty (t1 t2 : ty) : option ty :=
+  if ty_eqb t1 t2 then Some t1
+  else match rank t1, rank t2 with Some r1, Some r2 => Some (of_rank (Nat.max r1 r2)) | _, _ => None end.
+Fixpoint unified_fields (v1 v2 : fields) : option fields :=
+  match v1 with
+  | [] => Some []
+  | (f, t1) :: r =>
+      match lookup_ty v2 f, unified_fields r v2 with
+      | Some t2, Some rest => option_map (fun t => (f, t) :: rest) (unify_ty t1 t2)
+      | _, _ => None
+      end
+  end.
+Definition union_select (row : fields) (key : list N) (tgt : fields) : fe :=
+  EAnnotate (ESelect (top ROW row) key)
+    (map (fun ft => (fst ft, match lookup_ty row (fst ft) with
+                             | Some t => if ty_eqb t (snd ft) then EField (top ROW row) (fst ft) else ECast (snd ft) (EField (top ROW row) (fst ft))
+                             | None => EField (top ROW row) (fst ft)
+                             end)) tgt).
 
 (** the front end: reported type and emitted relational IR, built together.
     The boolean tests on the computed lists ([subset .. (names ..)], freshness of the generated names) are facts the real
@@ -330,6 +364,36 @@ Fixpoint telab (p : prog) : option (rty * rir) :=
       | Some (RT (TT gl row _), x) =>
           if subset (map fst sf) (names row) then Some (RT (TT gl row []), TableOrderBy x sf) else None
       | _ => None
+      end
+  | PUnion p q unify =>
+      match telab p, telab q with
+      | Some (RT (TT g1 r1 k1), x1), Some (RT (TT g2 r2 k2), x2) =>
+          (* the keys must have the same dtype (a struct: names and types) *)
+          match select_fields r1 k1, select_fields r2 k2 with
+          | Some ks1, Some ks2 =>
+              if negb (fields_eqb ks1 ks2 && nlist_eqb k1 k2) then None
+              else if negb unify then
+                if fields_eqb r1 r2 then Some (RT (TT g1 r1 k1), TableUnion x1 x2) else None
+              else
+                let v1 := value_fields r1 k1 in let v2 := value_fields r2 k2 in
+                if fields_eqb v1 v2 then Some (RT (TT g1 r1 k1), TableUnion x1 x2)       (* "nothing to unify": no select *)
+                else if negb ((length v1 =? length v2)%nat && nodupN (names v2)) then None  (* missing fields: outside the model *)
+                else
+                  match unified_fields v1 v2 with
+                  | Some tgt =>
+                      match elab (row_env g1 r1) (union_select r1 k1 tgt), elab (row_env g2 r2) (union_select r2 k2 tgt) with
+                      | Some (TStruct n1, y1), Some (TStruct n2, y2) =>
+                          if disjoint (names tgt) k1 && nodupN (k1 ++ names tgt) && subset k1 (names n1) && subset k2 (names n2)
+                             && fields_eqb n1 n2
+                          then Some (RT (TT g1 n1 k1), TableUnion (TableMapRows x1 y1) (TableMapRows x2 y2))
+                          else None
+                      | _, _ => None
+                      end
+                  | None => None
+                  end
+          | _, _ => None
+          end
+      | _, _ => None
       end
   | PAnnotateIdx p r uid kfs am fs =>
       match telab p, telab r with
@@ -462,6 +526,8 @@ Fixpoint telab (p : prog) : option (rty * rir) :=
 Definition reported (p : prog) : option rty := option_map fst (telab p).
 Definition emitted (p : prog) : option rir := option_map snd (telab p).
 
+(* the guard of the partial theorem, (c): union(unify=True) of tables whose VALUE types coincide is sent without any select;
+   it is well-typed only if the whole ROW types coincide (the key fields may sit at different positions) *)
 (* the guard of the partial theorem: a matrix-row lookup into an interval-keyed table (a) is not into a table whose
    COMPOUND key starts with an interval and (b) uses a point of the type of the matrix's first row key field (the emitted
    MatrixAnnotateRowsTable joins on the ROW KEY, whatever the index expression is) *)
@@ -473,6 +539,13 @@ Fixpoint simple_interval_keys (p : prog) : bool :=
   | PMAnnotateRows p _ | PMAnnotateCols p _ | PMAnnotateEntries p _ | PMAnnotateGlobals p _
   | PMKeyRowsBy p _ | PMKeyColsBy p _ => simple_interval_keys p
   | PAnnotateIdx p r _ _ _ _ => simple_interval_keys p && simple_interval_keys r
+  | PUnion p q unify =>
+      simple_interval_keys p && simple_interval_keys q &&
+      match telab p, telab q with
+      | Some (RT (TT _ r1 k1), _), Some (RT (TT _ r2 k2), _) =>
+          negb unify || negb (fields_eqb (value_fields r1 k1) (value_fields r2 k2)) || fields_eqb r1 r2
+      | _, _ => true
+      end
   | PMAnnotateRowsIv m r _ k _ _ =>
       simple_interval_keys m && simple_interval_keys r &&
       match telab m, telab r with
